@@ -102,13 +102,15 @@ PROPS = {
               "by trace acceptance: after every response the harness BESS server's tables must equal the model's and the image of the live sessions; "
               "restart after SIGKILL must leave the four lookup modules empty.",
         note="partial: the image refinement is proved on the reduced table model, the full agent model is tied by T2 only; BESS itself is a table model "
-             "(semantics of pkg/fake_bess). Envelope: IPv4, distinct rule IDs per session, distinct match keys of live PDRs, key-preserving updates.",
+             "(semantics of pkg/fake_bess). Envelope of the theorems: IPv4, distinct rule IDs per session, distinct match keys of live PDRs, key-preserving updates; "
+             "key-changing Update PDRs are generated too and judged by the oracle (open finding C03-update-pdr-changes-key).",
         rule="rounds of: seeded leftovers, start, two associations, a random history of 4-13 requests (establish 8 session shapes incl. SDF/app filters, CHOOSE F-TEID, UE-IP "
              "allocation, buffering FARs; handover with/without end marker; create/update/remove rules; unknown session; wrong node ID; CP F-SEID change), then SIGKILL; "
              "non-trivial = an accepted request. Also: updates naming FAR / QER / PDR IDs the session does not have (skipped, nothing written); "
-             "modifications refused after they removed a non-last rule",
+             "modifications refused after they removed a non-last rule; every fourth incarnation: Update PDRs that move a rule to another F-TEID (another table key)",
         trusted_base=[GO_LIBS, "go-pfcp IE codecs", "fake BESS server (harness/internal/sysh/bess.go)", "loopback UDP/gRPC"],
-        assumptions=["IPv4 only", "distinct live PDRs have distinct match keys", "an Update PDR/QER does not change the rule's table key"],
+        assumptions=["IPv4 only", "distinct live PDRs have distinct match keys (two rules with one key are an ambiguous rule set)",
+                     "theorems: an Update PDR/QER does not change the rule's table key (the T2 oracle does not assume it)"],
     ),
     "C20": dict(
         lean=["Upf.Props.C20"],
@@ -305,7 +307,9 @@ PROPS["C04"] = dict(
     claim="Theorems (all inputs): the action of every terminations entry follows FAR and QER exactly as stated (drop iff the FAR drops or the gate of that "
           "direction is closed, else forward with FAR TEID, QFI, traffic class, application-meter cell, counter); sessions entries sit under N3 address+TEID / "
           "UE address, buffering iff the FAR buffers, else pointing to the tunnel peer; the tunnel-peer entry carries access address, outer-header address and "
-          "port; reference counting of tunnel peers (last user deletes entry and returns the ID, a remaining user keeps both, a second user re-uses the ID). "
+          "port; reference counting of tunnel peers (last user deletes entry and returns the ID, a remaining user keeps both, a second user re-uses the ID); "
+          "whatever a killed incarnation left in the switch, after a start-up whose Writes are served the seven tables the agent owns hold nothing but "
+          "the two interfaces entries (restart_clears_tables). "
           "Per history (T2): the model of up4.go + p4rt_translator.go + the session handlers, run with the environment's observed choices, must predict every "
           "Write RPC of the real agent update by update and status by status, the switch content and the plug-in's bookkeeping; the oracle compares the switch "
           "with the image of the live sessions after EVERY response, and after a kill + restart against the same switch.",
@@ -317,7 +321,9 @@ PROPS["C04"] = dict(
          "up to 6 live sessions of 8 shapes (per-direction / shared / no QERs, session QER, application filters shared between sessions, buffering FAR, further "
          "PDRs sharing TEID / UE address, closed gates) sharing 3 gNB peers: establish, delete, buffer (with / without forwarding parameters), forward to the "
          "same / another gNB, QER update (rates, gates, QFI), FAR action, remove / create PDR, PDR update (precedence, filter); every second round the agent "
-         "is SIGKILLed and restarted against the same switch and the history continues; non-trivial = an accepted request",
+         "is SIGKILLed and restarted against the same switch and the history continues; the first two rounds open with the scripted history 'a buffering FAR is "
+         "given gNB X's tunnel, X's last forwarding user leaves, the buffering session is deleted / its association released' (defect 83b28b9); "
+         "non-trivial = an accepted request",
     trusted_base=P4_TB,
     assumptions=["IPv4 only", "values inside their field widths", "a refused establishment's SEID is not observable: the model keys its leftovers by a value no real SEID can take"],
     timeout=dict(quick=900, thorough=7200),
